@@ -395,7 +395,7 @@ def main():
         if why:
             u = {"file": it.file, "item": it.key, "line": it.line, "why": why, "text": norm(it.text)[:240]}
             if ent is not None and ent.get("hash") != hh and ent.get("tokens"):
-                u["token_diff"] = token_diff(ent["tokens"].split(" "), tokens(it.text))
+                u["token_diff"] = token_diff(TOKEN_RE.findall(ent["tokens"]), tokens(it.text))
             unparsed.append(u)
         else:
             covered.append((it, known[it.key]["cover"]))
